@@ -9,7 +9,8 @@ theorem fails_one (k : Nat) (hk : 1 ≤ k) : fails 1 k = true := by simp [fails,
 theorem renewF_no_failure (s : SrvF) (r : Rec) (n : Nat) :
     renewF s r 0 n =
       (if (write r s.base.id 0 s.base.tick).2 then ({ s with sess := true } : SrvF)
-       else { base := becomeFollowerNil s.base, sess := true }, (write r s.base.id 0 s.base.tick).1, false) := by
+       else { base := becomeFollowerNil s.base, sess := true }, (write r s.base.id 0 s.base.tick).1,
+       !(write r s.base.id 0 s.base.tick).2) := by
   unfold renewF
   simp only [fails_zero, Bool.and_false, Bool.false_eq_true, if_false]
   generalize write r s.base.id 0 s.base.tick = w
@@ -47,9 +48,20 @@ theorem turnF_no_failure (s : SrvF) (r : Rec) :
     · simp only [h0, if_false]
       by_cases hid : recInst r = s.base.id
       · simp only [hid, if_true, renewF_no_failure, Option.map_some]
-        generalize write r s.base.id 0 (s.base.tick + 1) = w
+        -- the record names this server: its own renewal is accepted
+        have hacc : (write r s.base.id 0 (s.base.tick + 1)).2 = true := by
+          unfold write
+          cases r with
+          | none => exact absurd rfl h0
+          | some p =>
+            obtain ⟨hh, tt⟩ := p
+            have : hh = s.base.id := hid
+            simp [this]
+        generalize hw : write r s.base.id 0 (s.base.tick + 1) = w at hacc
         obtain ⟨r', ok⟩ := w
-        cases ok <;> simp [becomeFollowerNil]
+        cases ok
+        · cases hacc
+        · simp
       · simp only [hid, if_false]
         cases hs : setLeaderInfo s.base.cur (recInst r) (recTick r) with
         | unknownState => simp
